@@ -101,6 +101,19 @@ CHECKS = {
          "DESIGN.md section 4, C01"),
 }
 
+# sentences appended to a check's text (strengthenings made after the table above was written)
+ADDED = {
+ "C02": " Also every list of exactly 3 operations (12^3) as the success branch of a transaction without predicates and as the failure branch of one with a false predicate.",
+ "C03": " Also one log of six entries staging 4 MiB each under all 2^5 batchings (each also followed by close+reopen): every multiple of 4 MiB up to 24 MiB is crossed exactly at the last entry of some apply call.",
+ "C07": " Also the real SnapshotServer.Stream with three leader writes landing before its k-th executed statement for every k (statement points in Stream, FSM.Lookup and commandSnapshot): streamed pairs = table content at the declared index.",
+ "C11": " Part C's alphabet also holds a snapshot recovery of the follower table (real worker.recover -> Engine.Restore, at most once per path); known finding D14 (known_findings.json, findings/D14-*.json).",
+ "C13": " Also every sequence of length 0..2 on ten pairwise different keys that a normalisation would merge.",
+ "C14": " Two-manager race scenarios with lag are explored once more with the lagging replica moving forward by snapshot install into its non-empty store.",
+ "C15": " Worker part (fake clock): every lease write that succeeds while the committed record names another node and has not expired is a violation; expiry boundary: node 2 asks at 18 exact instants between 2h after and 3.999s before node 1's lease runs out.",
+ "C17": " A 15th client certificate is issued by a CA that only the host's default trust store knows (SSL_CERT_FILE / SSL_CERT_DIR replaced for the check's process and the binaries it starts).",
+ "C18": " Every shipped stream is also received with an empty chunk before and after every chunk.",
+}
+
 NOT_APPLICABLE = {}
 
 def main():
@@ -111,6 +124,7 @@ def main():
         if pid not in CHECKS:
             continue
         level, tech, text, note, ref = CHECKS[pid]
+        text += ADDED.get(pid, "")
         checks.append({
             "property_id": pid,
             "quick_cmd": f"scripts/check.sh {pid} quick",
